@@ -79,18 +79,21 @@ fn data(seed: u64) -> (Vec<u8>, Vec<u8>) {
 /// returns a description of the first failure, if any
 fn case(stage: u8, code: u32, seed: u64) -> Option<String> {
     let d = tmp(&format!("{stage}-{code}-{seed}"));
-    let (basis, src) = data(seed);
+    // stage 2 (the unmodified chain) runs at EVERY legal block size; the corruption stages at 1024
+    let bs: usize = if stage == 2 { crate::engine_w::BLOCK_SIZES[(code as usize) % 8] } else { 1024 };
+    let bss = bs.to_string();
+    let (basis, src) = if stage == 2 { let b = crate::engine_w::gen(0, 3 * bs + 777, seed); let mut s = b.clone(); let k = (seed as usize * 7919) % s.len(); s[k] ^= 0x11; s.extend_from_slice(b"-appended-tail"); (b, s) } else { data(seed) };
     std::fs::write(d.join("basis"), &basis).ok()?;
     std::fs::write(d.join("src"), &src).ok()?;
     let r = (|| -> Option<String> {
-        let o = run(&["signature", &p(&d, "basis"), "-o", &p(&d, "b.sig"), "-b", "1024"]);
-        if o.code != Some(0) { return Some(format!("`copia signature` failed on a plain file: {:?} {}", o.code, o.stderr)); }
+        let o = run(&["signature", &p(&d, "basis"), "-o", &p(&d, "b.sig"), "-b", &bss]);
+        if o.code != Some(0) { return Some(format!("`copia signature -b {bs}` failed on a plain file: {:?} {}", o.code, o.stderr)); }
         let mut sig: Signature = bincode_de(&std::fs::read(d.join("b.sig")).ok()?)?;
         let mut what = "unmodified";
         if stage == 0 { what = corrupt_sig(code, &mut sig); std::fs::write(d.join("b.sig"), bincode_ser(&sig)?).ok()?; }
         let o = run(&["delta", &p(&d, "src"), &p(&d, "b.sig"), "-o", &p(&d, "s.delta")]);
         if o.crashed { return Some(format!("`copia delta` CRASHED (status {:?}) on a signature file altered by: {what}; stderr: {}", o.code, o.stderr)); }
-        if o.code != Some(0) { return None; } // reported error: fine
+        if o.code != Some(0) { if stage == 2 { return Some(format!("`copia delta` failed on a signature file written by `copia signature -b {bs}`: {}", o.stderr)); } return None; } // reported error: fine
         if stage == 0 && code != 0 { return None; }
         let mut delta: Delta = bincode_de(&std::fs::read(d.join("s.delta")).ok()?)?;
         if stage == 1 { what = corrupt_delta(code, &mut delta); std::fs::write(d.join("s.delta"), bincode_ser(&delta)?).ok()?; }
@@ -102,7 +105,7 @@ fn case(stage: u8, code: u32, seed: u64) -> Option<String> {
                 return Some(format!("`copia patch` exited 0 but BLAKE3(output file, {} bytes) != the delta's checksum; delta altered by: {what}", out.len()));
             }
             if stage == 2 && out != src { return Some("signature -> delta -> patch through files did not reproduce the source".into()); }
-        } else if stage == 2 { return Some(format!("`copia patch` failed on an unmodified chain: {}", o.stderr)); }
+        } else if stage == 2 { return Some(format!("`copia patch` failed on an unmodified chain written by `copia signature -b {bs}` and `copia delta`: {}", o.stderr)); }
         None
     })();
     let _ = std::fs::remove_dir_all(&d);
@@ -171,6 +174,40 @@ fn edge_case(code: u32, seed: u64) -> Option<String> {
     r
 }
 
+/// C05 at the CLI, output path shapes: `copia patch BASIS DELTA -o OUT` where OUT is the basis itself (in place), an existing longer
+/// file, or a fresh path. Exit 0 only if the OUTPUT FILE as it is afterwards hashes to the delta's checksum.
+fn outpath_case(code: u32, seed: u64) -> Option<String> {
+    let d = tmp(&format!("out-{code}-{seed}"));
+    let g = |n: usize, k: u64| crate::engine_w::gen(0, n, seed + k);
+    let basis = g(8 * 1024, 1);
+    let (src, what): (Vec<u8>, &str) = match code % 4 {
+        0 => (basis[1024..].to_vec(), "the basis with its first block removed (shorter)"),
+        1 => (g(3000, 9), "unrelated content, literal only (shorter)"),
+        2 => { let mut s = basis.clone(); s.extend_from_slice(&g(5000, 3)); (s, "the basis with a tail appended (longer)") }
+        _ => (basis[..2048].to_vec(), "the first two blocks of the basis (shorter)"),
+    };
+    let place = code / 4;        // 0: output == basis path; 1: output is an existing LONGER file; 2: fresh path
+    std::fs::write(d.join("basis"), &basis).ok()?; std::fs::write(d.join("src"), &src).ok()?;
+    let r = (|| -> Option<String> {
+        if run(&["signature", &p(&d, "basis"), "-o", &p(&d, "b.sig"), "-b", "1024"]).code != Some(0) { return None; }
+        if run(&["delta", &p(&d, "src"), &p(&d, "b.sig"), "-o", &p(&d, "s.delta")]).code != Some(0) { return None; }
+        let delta: Delta = bincode_de(&std::fs::read(d.join("s.delta")).ok()?)?;
+        let out = match place { 0 => "basis", 1 => { std::fs::write(d.join("old-out"), g(40_000, 5)).ok()?; "old-out" } _ => "fresh-out" };
+        let o = run(&["patch", &p(&d, "basis"), &p(&d, "s.delta"), "-o", &p(&d, out)]);
+        if o.crashed { return Some(format!("`copia patch` CRASHED (status {:?}) writing to {}", o.code, ["the basis path itself", "an existing longer file", "a fresh path"][place as usize])); }
+        if o.code == Some(0) {
+            let got = std::fs::read(d.join(out)).ok()?;
+            if StrongHash::compute(&got) != delta.checksum {
+                return Some(format!("`copia patch BASIS DELTA -o OUT` with OUT = {} exited 0, but OUT now holds {} bytes that do not hash to the delta's checksum (the new version is {} bytes: {what})", ["the basis path itself", "an existing longer file", "a fresh path"][place as usize], got.len(), src.len()));
+            }
+        }
+        None
+    })();
+    let _ = std::fs::remove_dir_all(&d);
+    r
+}
+pub const NOUT: u32 = 12;
+
 fn bincode_de<T: serde::de::DeserializeOwned>(b: &[u8]) -> Option<T> { bincode::deserialize(b).ok() }
 fn bincode_ser<T: serde::Serialize>(t: &T) -> Option<Vec<u8>> { bincode::serialize(t).ok() }
 
@@ -209,11 +246,11 @@ fn byte_case(stage: u8, code: u32, seed: u64) -> Option<String> {
 pub fn search(contract: &str, seed: u64, as_twin: bool) -> i32 {
     if bin().is_none() { eprintln!("COPIA_BIN not set"); if as_twin { println!("CASES 0"); } return 0; }
     let mut cases = 0u64;
-    let stages: Vec<(u8, u32)> = if contract.contains("sync_files") { vec![(5, NSYNC)] } else if contract.contains("run_delta") { vec![(0, NSIG), (6, NEDGE)] } else if contract.contains("run_patch") { vec![(1, NDELTA)] } else { vec![(2, 1), (6, NEDGE), (5, NSYNC), (0, NSIG), (1, NDELTA)] };
+    let stages: Vec<(u8, u32)> = if contract.contains("sync_files") { vec![(5, NSYNC)] } else if contract.contains("run_delta") { vec![(0, NSIG), (6, NEDGE)] } else if contract.contains("run_patch") { vec![(1, NDELTA), (7, NOUT)] } else { vec![(2, 8), (6, NEDGE), (5, NSYNC), (7, NOUT), (0, NSIG), (1, NDELTA)] };
     for (stage, n) in stages {
         for code in 0..n {
             cases += 1;
-            let r = match stage { 5 => sync_case(code, seed), 6 => edge_case(code, seed), _ => case(stage, code, seed) };
+            let r = match stage { 5 => sync_case(code, seed), 6 => edge_case(code, seed), 7 => outpath_case(code, seed), _ => case(stage, code, seed) };
             if let Some(what) = r {
                 println!("WITNESS {{\"kind\":\"cli\",\"stage\":{stage},\"code\":{code},\"seed\":{seed},\"what\":\"{}\"}}", what.replace('"', "'").replace('\n', " "));
                 if as_twin { println!("CASES {cases}"); }
@@ -238,7 +275,7 @@ pub fn search(contract: &str, seed: u64, as_twin: bool) -> i32 {
 pub fn run_w(w: &str) -> i32 {
     let _ = json_str(w, "kind");
     let st = json_u64(w, "stage").unwrap_or(0) as u8;
-    let f = match st { 5 => (|_s: u8, c: u32, sd: u64| sync_case(c, sd)) as fn(u8, u32, u64) -> Option<String>, 6 => |_s, c, sd| edge_case(c, sd), 3 | 4 => byte_case, _ => case };
+    let f = match st { 5 => (|_s: u8, c: u32, sd: u64| sync_case(c, sd)) as fn(u8, u32, u64) -> Option<String>, 6 => |_s, c, sd| edge_case(c, sd), 7 => |_s, c, sd| outpath_case(c, sd), 3 | 4 => byte_case, _ => case };
     match f(st, json_u64(w, "code").unwrap_or(0) as u32, json_u64(w, "seed").unwrap_or(0)) {
         Some(what) => { println!("REPRODUCED: {what}"); 1 }
         None => { println!("not reproduced: the CLI reports an error or produces bytes matching the checksum"); 0 }
